@@ -259,7 +259,7 @@ func (c *e2eCtx) newScenario(i int, r *rand.Rand, o proj.Opts, mkcfg func(r *ran
 	// one configuration in six ignores a library that lies ON an import path (imported by some
 	// package, importing others): its files are not instrumented, the packages behind it still are
 	// and still belong to the import closure of the mains that reach them through it
-	if i%6 == 2 {
+	if o.IgnoreMidLib && i%6 == 2 {
 		imported := map[int]bool{}
 		for _, pk := range s.p.Pkgs {
 			for _, j := range pk.Imports {
